@@ -202,6 +202,16 @@ def reconcile(case, policy, mode, tmp):
     outp = os.path.join(tmp, f"out-{policy}.json")
     json.dump(case["data"], open(inp, "w"))
     argv = ["reconcile", "--input", inp, "--output", outp, case["algo"], "--solutions", policy] + cli.cost_args(case["costs"])
+    stdio = mode == "real" and case.get("stdio")
+    if stdio:
+        # default paths of the tool: problem on stdin, solutions on stdout (the minimum cost goes to stderr)
+        argv = ["reconcile", case["algo"], "--solutions", policy] + cli.cost_args(case["costs"])
+        status, stdout, stderr = cli.run_cli(argv, stdin=json.dumps(case["data"]))
+        mc = None
+        for line in stderr.splitlines():
+            if line.startswith("Minimum cost:"):
+                mc = cli.parse_min_cost(line.split(":", 1)[1].strip())
+        return {"status": status, "text": stdout, "stderr": stderr, "stdout": stdout, "min": mc}
     if mode == "real":
         status, stdout, stderr = cli.run_cli(argv)
     else:
@@ -340,6 +350,9 @@ def run(ctx, spec):
         case = random_doc_input(rng, algo, 4 if mode == "real" else 5, 3 if mode == "real" else 4)
         if k % 9 == 4 and SC.kind_of(algo) != "plain":
             case["data"].pop("leaf_syntenies", None)
+        if mode == "real" and k % 3 == 1:
+            case["stdio"] = True
+            ctx.count("mon.stdio_runs")
         check_case(ctx, case, mode)
         if ctx.too_many():
             return
